@@ -4,13 +4,18 @@ import itertools, random
 
 ATOMS = ['X0', 'X1', 'X2', 'X3']
 GROUPS = ['GA', 'GB', 'GC']
-TRAITS = {'D': ['G'], 'D2': ['G', 'H'], 'Dp': ['G'], 'Dp<u8>': ['G']}
+TRAITS = {'D': ['G'], 'D2': ['G', 'H'], 'Dp': ['G'], 'Dp<u8>': ['G'], 'Dq': ['G']}
+
+
+def assocs_of(tr):
+    return TRAITS.get(tr) or TRAITS[tr.split('<')[0]]
 
 PRELUDE = '''#![allow(dead_code, unused)]
 use disjoint_impls::disjoint_impls;
 pub trait D { type G: ?Sized; }
 pub trait D2 { type G: ?Sized; type H: ?Sized; }
 pub trait Dp<P = ()> { type G: ?Sized; }
+pub trait Dq<P: ?Sized> { type G: ?Sized; }
 pub trait Tr0 {}
 pub enum GA {} pub enum GB {} pub enum GC {}
 pub struct X0; pub struct X1; pub struct X2; pub struct X3;
@@ -69,6 +74,8 @@ class Block:
     def bound_text(self, tr, binds):
         if tr == '__outlives__':
             return self.slots['L0'][1]
+        if '{' in tr:
+            tr = self.fmt(tr)
         if not binds:
             return tr
         bs = ', '.join('%s = %s' % (a, self.fmt(x)) for a, x in binds.items())
@@ -143,6 +150,9 @@ HEADERS = {
     'w': ('W<{T0}, {N0}>', ['T0', 'N0']),
     'pairbox': ('({T0}, Box<{T1}>)', ['T0', 'T1']),
     'refpair': ("&{L0} ({T0}, Box<{T1}>)", ['L0', 'T0', 'T1']),
+    'xpair': ('(X0, {T0})', ['T0']),
+    'pairx': ('({T0}, X0)', ['T0']),
+    'optpair': ('(Option<{T0}>, {T1})', ['T0', 'T1']),
 }
 SPELL = {'T0': ['T', 'U', 'A', 'Elem', 'Tr', 'T0'], 'T1': ['U', 'T', 'B', 'Other', 'V', 'G'],
          'N0': ['N', 'M', 'LEN'], 'L0': ["'a", "'b", "'x"]}
@@ -287,7 +297,7 @@ class Case:
         return src
 
 
-def build_world_and_probes(rng, blocks, headers, unsized=False, nprobes=6, impl_rate=0.8):
+def build_world_and_probes(rng, blocks, headers, unsized=False, nprobes=6, impl_rate=0.8, prefer_rate=0.0):
     """probes = ground instances of every block header; world = impls of the dispatch traits
     for the ground bounded types those instances induce"""
     probes, world = [], {}
@@ -305,12 +315,14 @@ def build_world_and_probes(rng, blocks, headers, unsized=False, nprobes=6, impl_
             for (bounded, tr, binds, place) in b.bounds:
                 try:
                     ty = subst_fmt(bounded, inst)
+                    trt = subst_fmt(tr, inst) if '{' in tr else tr
                 except KeyError:
                     continue
-                key = (ty, tr)
+                key = (ty, trt)
                 if key not in world:
                     if rng.random() < impl_rate:
-                        world[key] = {a: rng.choice(GROUPS) for a in TRAITS[tr]}
+                        prefer = [g for g in binds.values() if g in GROUPS]
+                        world[key] = {a: (rng.choice(prefer) if prefer and rng.random() < prefer_rate else rng.choice(GROUPS)) for a in assocs_of(tr)}
                     else:
                         world[key] = None
     # a few probes that match no header
@@ -491,10 +503,15 @@ def gen_case(rng, kind):
         headers = [headers[i] for i in order]
     elif kind == 'nested':
         # general family on a key the nested members can express
-        gen_h, spec_h, key = rng.choice([
-            ('pair', 'vecpair', '{T1}'),          # (T,U) > (Vec<T>,U), key on U
-            ('pair', 'pairvec', '{T0}'),          # (T,U) > (T,Vec<U>), key on T
-            ('T', 'vec', None), ('T', 'opt', None),
+        gen_h, spec_h, key, spec_key = rng.choice([
+            ('pair', 'vecpair', '{T1}', '{T1}'),          # (T,U) > (Vec<T>,U), key on U
+            ('pair', 'pairvec', '{T0}', '{T0}'),          # (T,U) > (T,Vec<U>), key on T
+            ('T', 'vec', None, None), ('T', 'opt', None, None),
+            ('pair', 'xpair', '{T1}', '{T0}'),            # (T,U) > (X0,T): the parameter shifts position
+            ('pair', 'pairx', '{T0}', '{T0}'),            # (T,U) > (T,X0)
+            ('pair', 'dup', '{T1}', '{T0}'),              # (T,U) > (T,T): non-injective
+            ('pair', 'dup', '{T0}', '{T0}'),
+            ('pair', 'pairvec', '{T1}', 'Vec<{T1}>'),     # key on U, re-expressed as Vec<U>
         ])
         if key is None:
             # T > Vec<T>: general key on T itself == the whole nested header
@@ -506,6 +523,7 @@ def gen_case(rng, kind):
             self_fmt, used = HEADERS[spec_h]
             slots = mk_slots(rng, used)
             nb = Block(slots, None, self_fmt, [(self_fmt, tr, {assoc: free[0]}, 'where')], 'b%d' % len(general))
+            nb.keymap = {'{T0}': self_fmt}
             blocks = general + [nb]
             headers = [HEADERS[gen_h]] * len(general) + [HEADERS[spec_h]]
         else:
@@ -516,7 +534,8 @@ def gen_case(rng, kind):
             free = [g for g in GROUPS if g not in used_groups] or GROUPS
             self_fmt, used = HEADERS[spec_h]
             slots = mk_slots(rng, used)
-            nb = Block(slots, None, self_fmt, [(key, tr, {assoc: free[0]}, 'where')], 'b%d' % len(general))
+            nb = Block(slots, None, self_fmt, [(spec_key, tr, {assoc: free[0]}, 'where')], 'b%d' % len(general))
+            nb.keymap = {key: spec_key}
             blocks = general + [nb]
             headers = [HEADERS[gen_h]] * len(general) + [HEADERS[spec_h]]
         if rng.random() < 0.5:
@@ -524,6 +543,28 @@ def gen_case(rng, kind):
             rng.shuffle(order)
             blocks = [blocks[i] for i in order]
             headers = [headers[i] for i in order]
+    elif kind == 'nestedx':
+        # a nested member that also bounds a parameter the general header cannot name, over a
+        # dispatch trait with a type parameter:  (T,U): T: Dq<U, G=..>  >  (Vec<T>,U): [Vec<T>: Dq<U, G=..>,] T: Dq<U, G=..>
+        spec_h, wrap = rng.choice([('vecpair', 'Vec<{T0}>'), ('optpair', 'Option<{T0}>')])
+        tr = 'Dq<{T1}>'
+        g = rng.sample(GROUPS, 3)
+        pl = lambda: rng.choice(['inline', 'where'])
+        general = [Block(mk_slots(rng, ['T0', 'T1']), None, '({T0}, {T1})', [('{T0}', tr, {'G': g[i]}, pl())], 'b%d' % i) for i in range(rng.choice([1, 2]))]
+        variant = rng.choice(['only_inner', 'key_then_inner', 'inner_then_key'])
+        inner = ('{T0}', tr, {'G': rng.choice(GROUPS)}, pl())
+        keyb = (wrap, tr, {'G': g[2]}, 'where')
+        nb_bounds = {'only_inner': [inner], 'key_then_inner': [keyb, inner], 'inner_then_key': [inner, keyb]}[variant]
+        nb = Block(mk_slots(rng, ['T0', 'T1']), None, HEADERS[spec_h][0], nb_bounds, 'bn')
+        blocks = general + [nb]
+        headers = [HEADERS['pair']] * len(general) + [HEADERS[spec_h]]
+        if rng.random() < 0.5:
+            order = list(range(len(blocks))); rng.shuffle(order)
+            blocks = [blocks[i] for i in order]; headers = [headers[i] for i in order]
+        for i, b in enumerate(blocks):
+            b.tag = 'b%d' % i
+        probes, world = build_world_and_probes(rng, blocks, headers, nprobes=8, impl_rate=0.9, prefer_rate=0.7)
+        return Case(kind, 'K', '', blocks, probes, world)
     elif kind == 'overlap':
         h = rng.choice(['T', 'pair', 'vec', 'opt', 'vecpair'])
         blocks = gen_family(rng, h, 2, 0, extra=False)
